@@ -185,7 +185,7 @@ func (st *c18State) scribble(b []byte) {
 func runC18(r *mon.Run) {
 	n := bigN
 	for _, c := range []string{"c18:panic:uninit-operand", "c18:uninit-receiver-ok", "c18:decode:fail", "c18:decode:ok", "c18:alias:rcv=operand", "c18:key:from-pool-scalar",
-		"c18:key:from-pool-point", "c18:key:behaviour-check", "c18:handed-out:scalar-into-pool", "c18:handed-out:point-into-pool", "c18:ctor:fail", "c18:alias:rcv-in-vector"} {
+		"c18:key:from-pool-point", "c18:key:behaviour-check", "c18:handed-out:scalar-into-pool", "c18:handed-out:point-into-pool", "c18:ctor:fail", "c18:alias:rcv-in-vector", "c18:alias:long-list", "c18:alias:receiver-deep-in-long-list", "c18:ctor:recover-identity", "c18:ctor:recovered-key-into-pool"} {
 		r.Require(c)
 	}
 	runUninitMatrix(r)
@@ -244,7 +244,7 @@ func (st *c18State) doStep() {
 			st.pts[d], st.mpts[d] = pointRep(q.P, z), q.P
 		}
 	}()
-	op := rng.Intn(47)
+	op := rng.Intn(48)
 	if rng.Chance(1, 25) {
 		// a pool slot becomes a fresh zero-value Point again
 		st.pts[d], st.mpts[d] = new(Point), nil
@@ -398,11 +398,38 @@ func (st *c18State) doStep() {
 		st.frame(ps, ss, d, -1, "ScalarBaseMult")
 	case 16:
 		l := rng.Intn(4)
+		long := rng.Chance(1, 5)
+		if long {
+			// a long list (pool objects repeat in it): the receiver may be ANY element,
+			// also one far down the list, beyond wherever an implementation splits its work
+			l = gen.Pick(rng, 33, 64, 65, 66, 100, 128, 129, 130, 65+rng.Intn(80))
+			w.Class("c18:alias:long-list")
+		}
 		idxP, idxS := make([]int, l), make([]int, l)
 		ptsL, scL := make([]*Point, l), make([]*Scalar, l)
 		bad := false
 		for k := 0; k < l; k++ {
 			idxP[k], idxS[k] = rng.Intn(c18Points), rng.Intn(c18Scalars)
+			if long && M[idxP[k]] == nil && k%7 != 3 {
+				idxP[k] = a // mostly initialised operands, or every long list would just panic
+			}
+		}
+		if long && rng.Chance(2, 3) {
+			for k := range idxP {
+				if idxP[k] == d {
+					idxP[k] = a // the receiver appears exactly where it is put below
+				}
+			}
+			at := gen.Pick(rng, l-1, 64, 65, l/2, 32+rng.Intn(l-32))
+			if at >= l {
+				at = l - 1
+			}
+			if a != d {
+				idxP[at] = d
+				w.Class("c18:alias:receiver-deep-in-long-list")
+			}
+		}
+		for k := 0; k < l; k++ {
 			ptsL[k], scL[k] = P[idxP[k]], st.scs[idxS[k]]
 			bad = bad || M[idxP[k]] == nil
 		}
@@ -419,9 +446,19 @@ func (st *c18State) doStep() {
 				P[d].MultiScalarMult(scL, ptsL)
 			}
 		}) && !bad {
-			sum := oracle.Infinity()
+			// sum over the DISTINCT pool points of (sum of their scalars) * point
+			coef := map[int]*big.Int{}
 			for k := 0; k < l; k++ {
-				sum = oracle.Add(sum, oracle.Mul(st.mscs[idxS[k]], M[idxP[k]]))
+				if coef[idxP[k]] == nil {
+					coef[idxP[k]] = new(big.Int)
+				}
+				coef[idxP[k]] = oracle.AddM(coef[idxP[k]], st.mscs[idxS[k]], bigN)
+			}
+			sum := oracle.Infinity()
+			for pi := 0; pi < c18Points; pi++ {
+				if c := coef[pi]; c != nil {
+					sum = oracle.Add(sum, oracle.Mul(c, M[pi]))
+				}
 			}
 			M[d] = sum
 		}
@@ -762,6 +799,56 @@ func (st *c18State) doStep() {
 			}
 		} else {
 			w.Class("c18:ctor:fail")
+		}
+	case 47:
+		// public key by recovery from a signature: a constructor like the others - it
+		// returns a key that holds a valid non-identity point, or an error and NO object
+		k := rng.Intn(c18Keys)
+		kk := oracle.AddM(rng.Below(new(big.Int).Sub(bigN, big.NewInt(1))), big.NewInt(1), bigN)
+		R := oracle.MulG(kk)
+		rr := oracle.Mod(R.X, bigN)
+		id := int(R.Y.Bit(0))
+		if R.X.Cmp(bigN) >= 0 {
+			id |= 2
+		}
+		ss := oracle.AddM(rng.Below(new(big.Int).Sub(bigN, big.NewInt(1))), big.NewInt(1), bigN)
+		dig := rng.Bytes(32)
+		kind := rng.Intn(4)
+		switch kind {
+		case 0:
+			// s*R = e*G: the recovered point would be the identity
+			dig = b32(oracle.MulM(ss, kk, bigN))
+			w.Class("c18:ctor:recover-identity")
+		case 1:
+			id = 4 + rng.Intn(250)
+		case 2:
+			if rng.Bool() {
+				rr = big.NewInt(0)
+			} else {
+				ss = big.NewInt(0)
+			}
+		}
+		if rr.Sign() != 0 || kind == 2 {
+			lr, ls := scalarFromBig(rr), scalarFromBig(ss)
+			want := oracle.ECDSARecover(dig, rr, ss, id)
+			nk, err := secec.RecoverPublicKey(dig, lr, ls, byte(id))
+			st.scribble(dig)
+			lr.Add(lr, ls)
+			switch {
+			case (err == nil) != (want != nil):
+				st.fail("RecoverPublicKey", "err=%v, the model recovers a key: %v", err, want != nil)
+			case err != nil && nk != nil:
+				st.fail("RecoverPublicKey", "failed (%v) but returned a key object", err)
+			case err == nil:
+				if nk.Point().IsIdentity() == 1 {
+					st.fail("RecoverPublicKey", "returned a key object holding the point at infinity")
+				} else {
+					st.pub[k], st.mpub[k] = nk, want
+					w.Class("c18:ctor:recovered-key-into-pool")
+				}
+			default:
+				w.Class("c18:ctor:fail")
+			}
 		}
 	case 37:
 		// hand-outs go into the pool (and will be mutated by later steps) or are scribbled
